@@ -174,6 +174,13 @@ class LoggingCB:
         if self.side: _append(self.side, f"EVAL {etag} {ltag} {self.tag} {os.getpid()}")
         return self._cb.evaluate(environment, learner)
 
+class LoggingRejection(LoggingCB):
+    """RejectionCB (needs logged environments) that logs which triple it evaluates"""
+    def __init__(self, side, tag="rej", **kw):
+        from coba.evaluators import RejectionCB
+        self.side, self.tag, self.kw = side, tag, kw
+        self._cb = RejectionCB(**kw)
+
 class FailingEnv:
     """environment wrapper raising at read item k or in params"""
     def __init__(self, env, where, k=0):
